@@ -49,4 +49,96 @@ theorem stackedLoop_eq (z : K) (ss : List (Solid K)) (p : Pt K) :
     rw [ih]
     cases s.f (subZ p (z - s.box.lo 2)) <;> simp [translatedUnion]
 
+/-! ### `StackedSolid.Min/Max` enclose the stack -/
+
+/-- One step of `StackedSolid.Max()`. -/
+def stepM (M : Pt K) (s : Solid K) : Pt K :=
+  fun i => maxOf (M i) (if i = 2 then s.box.hi 2 + (M 2 - s.box.lo 2) else s.box.hi i)
+
+theorem stackedMax_eq (first : Solid K) (rest : List (Solid K)) :
+    stackedMax first rest = rest.foldl stepM first.box.hi := rfl
+
+theorem maxOf_eq_right {a b : K} (h : a ≤ b) : maxOf a b = b := by
+  unfold maxOf; simp [h]
+
+theorem stackedFold_spec : ∀ (rest : List (Solid K)) (M : Pt K), (∀ s ∈ rest, s.box.lo 2 ≤ s.box.hi 2) →
+    (∀ i, M i ≤ (rest.foldl stepM M) i) ∧
+    ∀ x ∈ rest.zip (stackOffsets (M 2) rest),
+      M 2 ≤ x.1.box.lo 2 + x.2 ∧ x.1.box.hi 2 + x.2 ≤ (rest.foldl stepM M) 2 ∧
+      ∀ i, i ≠ 2 → x.1.box.hi i ≤ (rest.foldl stepM M) i := by
+  intro rest
+  induction rest with
+  | nil => intro M _; simp
+  | cons s rest ih =>
+    intro M hv
+    have hs : s.box.lo 2 ≤ s.box.hi 2 := hv s List.mem_cons_self
+    have hM2 : stepM M s 2 = s.box.hi 2 + (M 2 - s.box.lo 2) := by
+      simp only [stepM, if_true]
+      exact maxOf_eq_right (by linarith)
+    obtain ⟨m, r⟩ := ih (stepM M s) (fun x hx => hv x (List.mem_cons_of_mem _ hx))
+    have hstep : ∀ i, M i ≤ stepM M s i := fun i => le_maxOf_left _ _
+    refine ⟨fun i => le_trans (hstep i) (m i), ?_⟩
+    intro x hx
+    simp only [stackOffsets, List.zip_cons_cons, List.mem_cons] at hx
+    simp only [List.foldl_cons]
+    rcases hx with rfl | hx
+    · refine ⟨by simp, ?_, ?_⟩
+      · have := m 2
+        rw [hM2] at this
+        simpa using this
+      · intro i hi
+        refine le_trans ?_ (m i)
+        simp only [stepM, hi, if_false]
+        exact le_maxOf_right _ _
+    · rw [← hM2] at hx
+      obtain ⟨a, b, c⟩ := r x hx
+      exact ⟨le_trans (hstep 2) a, b, c⟩
+
+theorem foldl_join_lo_le (rest : List (Solid K)) (acc : Box K) (i : Nat) :
+    (rest.foldl (fun b s => b.join s.box) acc).lo i ≤ acc.lo i ∧
+    ∀ x ∈ rest, (rest.foldl (fun b s => b.join s.box) acc).lo i ≤ x.box.lo i := by
+  induction rest generalizing acc with
+  | nil => simp
+  | cons s rest ih =>
+    simp only [List.foldl_cons]
+    obtain ⟨a, b⟩ := ih (acc.join s.box)
+    refine ⟨le_trans a (minOf_le_left _ _), ?_⟩
+    intro x hx
+    rcases List.mem_cons.mp hx with rfl | hx
+    · exact le_trans a (minOf_le_right _ _)
+    · exact b x hx
+
+theorem joinedBox_lo_le (first : Solid K) (rest : List (Solid K)) {x : Solid K} (hx : x ∈ first :: rest)
+    (i : Nat) : (joinedBox first rest).lo i ≤ x.box.lo i := by
+  unfold joinedBox
+  rcases List.mem_cons.mp hx with rfl | hx
+  · exact (foldl_join_lo_le rest _ i).1
+  · exact (foldl_join_lo_le rest _ i).2 x hx
+
+/-- For operands that respect their bounds (and whose bounds have `min.z ≤ max.z`), every point of the
+translated union lies inside `StackedSolid`'s own bounds, so its `InBounds` test never cuts anything off. -/
+theorem stacked_bounds_redundant (s0 : Solid K) (rest : List (Solid K))
+    (hb : ∀ x ∈ s0 :: rest, Bounded 3 x) (hv : ∀ x ∈ s0 :: rest, x.box.lo 2 ≤ x.box.hi 2) (p : Pt K)
+    (h : translatedUnion (s0 :: rest) (0 :: stackOffsets (s0.box.hi 2) rest) p = true) :
+    (⟨(joinedBox s0 rest).lo, stackedMax s0 rest⟩ : Box K).contains 3 p = true := by
+  obtain ⟨m, r⟩ := stackedFold_spec rest s0.box.hi (fun x hx => hv x (List.mem_cons_of_mem _ hx))
+  simp only [translatedUnion, List.zip_cons_cons, List.any_cons, Bool.or_eq_true, List.any_eq_true] at h
+  rw [Box.contains_iff, stackedMax_eq]
+  intro i hi
+  rcases h with h | ⟨x, hx, h⟩
+  · rw [subZ_zero] at h
+    have hc := (Box.contains_iff 3 s0.box p).mp (hb s0 List.mem_cons_self p h) i hi
+    exact ⟨le_trans (joinedBox_lo_le s0 rest List.mem_cons_self i) hc.1, le_trans hc.2 (m i)⟩
+  · have hxm : x.1 ∈ s0 :: rest := List.mem_cons_of_mem _ (List.of_mem_zip hx).1
+    have hc := (Box.contains_iff 3 x.1.box (subZ p x.2)).mp (hb x.1 hxm _ h) i hi
+    obtain ⟨a, b, c⟩ := r x hx
+    by_cases e : i = 2
+    · subst e
+      simp only [subZ, if_true] at hc
+      have h0 := hv s0 List.mem_cons_self
+      have hj := joinedBox_lo_le s0 rest (x := s0) List.mem_cons_self 2
+      constructor <;> linarith [hc.1, hc.2]
+    · simp only [subZ, e, if_false] at hc
+      exact ⟨le_trans (joinedBox_lo_le s0 rest hxm i) hc.1, le_trans hc.2 (c i e)⟩
+
 end M3d.SolidAlg
